@@ -116,12 +116,12 @@ def filter_ops(t):
 
 
 ITEM_KINDS = ["lit", "string", "cstr", "int", "double", "char", "call_s", "call_c", "call_obj", "failbit",
-              "chararr", "call_mut"]
+              "chararr", "call_mut", "hex", "dec", "w6"]
 
 
 def gen_item(rng, uid, callable_bias):
     w = [3, 2, 2, 2, 1, 1] + [callable_bias, callable_bias * 0.6, callable_bias * 0.6] + [0.25] + \
-        [0.8, callable_bias * 0.3]
+        [0.8, callable_bias * 0.3] + [0.5, 0.2, 0.5]
     kind = rng.choices(ITEM_KINDS, weights=w)[0]
     if kind in ("lit", "string", "cstr", "chararr"):
         text = rng.choice(["a", "msg", "x y", "", "{}", "[t]", "0", "T|F", "end."]) + str(uid % 7)
@@ -132,6 +132,9 @@ def gen_item(rng, uid, callable_bias):
         return {"kind": kind, "text": rng.choice(["0.5", "2.5", "-1.25", "100", "1e+06"])}
     if kind == "char":
         return {"kind": kind, "text": rng.choice("cZ#1")}
+    if kind in ("hex", "dec", "w6"):
+        # stream manipulators: state that later items of the same statement are formatted with
+        return {"kind": kind, "text": ""}
     if kind == "failbit":
         # inserting a null stream buffer sets failbit on the statement's stream: nothing that is
         # streamed afterwards reaches the message, but the statement still is a statement
@@ -148,6 +151,9 @@ def gen_program(seed, prop):
     p["leaves"] = st["leaves"]
     p["nsinks"] = rng.choice([0, 1, 2, 3, 4])  # 0 = a plain sink, not a sequence
     p["nested"] = p["nsinks"] >= 3 and rng.random() < 0.4  # sequence<S0, sequence<S1>, S2...>
+    # one sink member reports every record it receives with a log statement of its own (an audit
+    # trail), issued from inside sink() before it stores the record
+    p["audit"] = rng.randrange(max(1, p["nsinks"])) if rng.random() < 0.25 else None
     nst = rng.randint(5, 40)
     bias = 4.0 if prop == "C10" else 1.2
     uid = 0
@@ -177,6 +183,10 @@ def gen_program(seed, prop):
         # unwinding (1), or a named stream object destroyed by unwinding (2)
         if "inner" not in s and rng.random() < 0.12:
             s["unwind"] = 2 if s["named"] and rng.random() < 0.5 else 1
+        # the named stream is the result of a chain (creation plus first item) bound to a forwarding
+        # reference: auto&& log = L::info() << first; log << second;
+        if s["named"] and s["items"] and rng.random() < 0.3:
+            s["bindchain"] = True
         # the runtime thresholds change while a named stream object is open: the statement was
         # accepted or rejected when it began
         if s["named"] and "inner" not in s and rng.random() < 0.2:
@@ -209,6 +219,12 @@ def item_cpp(it, k, j):
         return f"    char v{j} = '{it['text']}';\n", f"v{j}"
     if kind == "failbit":
         return f"    std::streambuf* v{j} = nullptr;\n", f"v{j}"
+    if kind == "hex":
+        return "", "std::hex"
+    if kind == "dec":
+        return "", "std::dec"
+    if kind == "w6":
+        return "", "std::setfill('0') << std::setw(6)"
     if kind == "chararr":
         # a buffer that merely holds a C string shorter than itself
         return f"    char v{j}[16] = {cstr(it['text'])};\n", f"v{j}"
@@ -235,7 +251,7 @@ def program_cpp(p):
       "#include <nitro/log/filter/null_filter.hpp>\n#include <nitro/log/filter/or_filter.hpp>\n"
       "#include <nitro/log/filter/severity_filter.hpp>\n#include <nitro/log/log.hpp>\n"
       "#include <nitro/log/sink/sequence.hpp>\n"
-      "#include <cstdio>\n#include <cstring>\n#include <streambuf>\n#include <string>\n#include <type_traits>\n#include <vector>\n")
+      "#include <cstdio>\n#include <cstring>\n#include <iomanip>\n#include <streambuf>\n#include <string>\n#include <type_traits>\n#include <vector>\n")
     a("static std::vector<std::string> trace;\nstatic void ev(const std::string& s) { trace.push_back(s); }\n")
     a("struct CountingClock { typedef long time_point; static long now() { static long t = 0; return ++t; } };\n")
     attrs = (["nitro::log::tag_attribute"] if p["has_tag"] else []) + \
@@ -247,9 +263,13 @@ def program_cpp(p):
     a("template <typename R> struct Fmt { std::string format(R& r) { std::string o = \"F|\" + "
       "sevstr(r.severity()) + \"|\" + %s + \"|\" + r.message(); ev(o); return o; } };\n" % tag_expr)
     # members with an odd index take the formatted record BY VALUE (a queueing sink would)
+    audit = p.get("audit")
+    a("static void audit();")
     a("template <int K> struct RecSink { void sink(nitro::log::severity_level s, "
       "typename std::conditional<K % 2 == 1, std::string, const std::string&>::type t) "
-      "{ ev(\"S\" + std::to_string(K) + \"|\" + sevstr(s) + \"|\" + t); } };\n")
+      "{ if (K == AUDIT_MEMBER && t.find(\"audit\") == std::string::npos) audit(); "
+      "ev(\"S\" + std::to_string(K) + \"|\" + sevstr(s) + \"|\" + t); } };\n".replace(
+          "AUDIT_MEMBER", str(-1 if audit is None else audit)))
     if p["has_tag"]:
         a("template <typename R> struct TagFilter { typedef R record_type; "
           "bool filter(R& r) const { return r.tag() != \"mute\"; } };\n")
@@ -263,6 +283,7 @@ def program_cpp(p):
     else:
         sink = "nitro::log::sink::sequence<%s>" % ", ".join(f"RecSink<{k}>" for k in range(p["nsinks"]))
     a(f"using L = nitro::log::logger<Record, Fmt, {sink}, Filter>;\n")
+    a("static void audit() { L::error() << \"audit\"; }\n")
     # the type-level half of C10: below the compile-time minimum the statement type discards everything
     for s, name in enumerate(SEV):
         want_null = "true" if s < p["min"] else "false"
@@ -309,7 +330,11 @@ def program_cpp(p):
             call = f"L::{SEV[s['sev']]}(std::string({tag}) + std::string())"
         if s["named"]:
             a("    try {" if s.get("unwind") == 2 else "    {")
-            a(f"        auto log = {call};")
+            chain0 = s.get("bindchain") and exprs
+            if chain0:
+                a(f"        auto&& log = {call} << {exprs[0]};")
+            else:
+                a(f"        auto log = {call};")
             if s.get("tagbuf") == 1:
                 a('        std::strcpy(tagbuf, "overwritten");')
             if s.get("bump"):
@@ -318,7 +343,8 @@ def program_cpp(p):
             if inner_line and s["inner"]["at"] == 0:
                 a(inner_line)
             for j, e in enumerate(exprs):
-                a(f"        log << {e};")
+                if not (chain0 and j == 0):
+                    a(f"        log << {e};")
                 a(f'        ev("M{k}.{j + 1}");')
                 if inner_line and s["inner"]["at"] == j + 1:
                     a(inner_line)
@@ -337,6 +363,10 @@ def program_cpp(p):
     settag = "r.tag() = tag; " if p["has_tag"] else "(void)tag; "
     a("static int will(int sev, const char* tag) { Record r; r.severity() = "
       "static_cast<nitro::log::severity_level>(sev); " + settag + "return L::will_log(r) ? 1 : 0; }\n")
+    a("// the same question while the thresholds are shifted (what a sink asks while a statement with shifted "
+      "thresholds is being delivered)")
+    a("static int will_shifted(int sev, const char* tag) { set_thresholds(3); int w = will(sev, tag); "
+      "set_thresholds(0); return w; }\n")
     a("int main()\n{")
     nl = p["leaves"]
     for i in range(nl):
@@ -349,8 +379,9 @@ def program_cpp(p):
     for k in range(len(p["stmts"])):
         st_k = p['stmts'][k]
         inner_st = st_k['inner']['stmt'] if st_k.get('inner') else st_k
-        a(f"        trace.clear(); stmt_{k}(); std::printf(\"#{k} W%d W%d\\n\", "
-          f"will({st_k['sev']}, {cstr(st_k['tag'] or '')}), will({inner_st['sev']}, {cstr(inner_st['tag'] or '')})); "
+        a(f"        trace.clear(); stmt_{k}(); std::printf(\"#{k} W%d W%d W%d W%d\\n\", "
+          f"will({st_k['sev']}, {cstr(st_k['tag'] or '')}), will({inner_st['sev']}, {cstr(inner_st['tag'] or '')}), "
+          "will(4, \"\"), will_shifted(4, \"\")); "
           "for (auto& e : trace) std::printf(\"%s\\n\", e.c_str());")
     a("    }\n    return 0;\n}")
     return "\n".join(out) + "\n"
@@ -362,21 +393,52 @@ def render(it):
     return it["text"]
 
 
-def expected_events(p, s, k, th, filter_decision=None, inner_decision=None):
+def message_of(items):
+    """concatenation of the item renderings, under the stream state the manipulators among them set"""
+    msg = ""
+    hexmode = False
+    width = False
+    for it in items:
+        kind = it["kind"]
+        if kind == "failbit":
+            break  # the stream is in a failed state from here on
+        if kind == "hex":
+            hexmode = True
+            continue
+        if kind == "dec":
+            hexmode = False
+            continue
+        if kind == "w6":
+            width = True  # setfill('0') stays, setw(6) holds for the next item only
+            continue
+        text = render(it)
+        if kind == "int" and hexmode:
+            text = format(int(it["text"]) & 0xFFFFFFFF, "x")
+        if width:
+            text = text.rjust(6, "0")
+            width = False
+        msg += text
+    return msg
+
+
+def expected_events(p, s, k, th, filter_decision=None, inner_decision=None, audit_decision=None):
     """events of statement k under thresholds th"""
     eff_tag = (s["tag"] or "") if p["has_tag"] else ""
     accepts = filter_eval(p["filter"], s["sev"], th, eff_tag) if filter_decision is None else filter_decision
     enabled = s["sev"] >= p["min"] and accepts
     inner_evs = []
     if s.get("inner"):
-        _, inner_evs = expected_events(p, s["inner"]["stmt"], k, th, inner_decision)
+        _, inner_evs = expected_events(p, s["inner"]["stmt"], k, th, inner_decision, None, audit_decision)
     evs = []
+    chain0 = s["named"] and s.get("bindchain") and s["items"]
+    if chain0 and enabled and s["items"][0]["kind"].startswith("call"):
+        evs.append(f"C{s['items'][0]['cid']}")  # streamed in the declaration, before the first mark
     if s["named"]:
         evs.append(f"M{k}.0")
         if s.get("inner") and s["inner"]["at"] == 0:
             evs += inner_evs
     for j, it in enumerate(s["items"]):
-        if enabled and it["kind"].startswith("call"):
+        if enabled and it["kind"].startswith("call") and not (chain0 and j == 0):
             evs.append(f"C{it['cid']}")
         if s["named"]:
             evs.append(f"M{k}.{j + 1}")
@@ -384,14 +446,22 @@ def expected_events(p, s, k, th, filter_decision=None, inner_decision=None):
                 evs += inner_evs
     if enabled:
         tag = (s["tag"] or "") if p["has_tag"] else "-"
-        msg = ""
-        for it in s["items"]:
-            if it["kind"] == "failbit":
-                break  # the stream is in a failed state from here on
-            msg += render(it)
-        f = f"F|{s['sev']}|{tag}|{msg}"
+        f = f"F|{s['sev']}|{tag}|{message_of(s['items'])}"
         evs.append(f)
+        # the member that keeps an audit trail logs a record of its own before it stores this one
+        audit = p.get("audit")
+        audit_on = False
+        audit_evs = []
+        if audit is not None:
+            # (a statement that shifted the thresholds is delivered while they are shifted)
+            th_now = tuple((t + 3) % 6 for t in th) if s.get("bump") else th
+            acc = filter_eval(p["filter"], 4, th_now, "") if audit_decision is None else audit_decision
+            audit_on = 4 >= p["min"] and acc
+            af = f"F|4|{'' if p['has_tag'] else '-'}|audit"
+            audit_evs = [af] + [f"S{q}|4|{af}" for q in range(max(1, p["nsinks"]))]
         for q in range(max(1, p["nsinks"])):
+            if audit == q and audit_on:
+                evs += audit_evs
             evs.append(f"S{q}|{s['sev']}|{f}")
     return enabled, evs
 
@@ -479,10 +549,11 @@ def check_program(p, src_root, workdir, name, stats=None):
                    f"{lines[pos] if pos < len(lines) else '<end>'!r}", evaluations
         pos += 1
         for k, s in enumerate(p["stmts"]):
-            if pos >= len(lines) or not lines[pos].startswith(f"#{k} W") or len(lines[pos].split()) != 3:
+            if pos >= len(lines) or not lines[pos].startswith(f"#{k} W") or len(lines[pos].split()) != 5:
                 return f"trace out of step before statement {k}", evaluations
             real_filter_accepts = lines[pos].split()[1] == "W1"
             real_filter_accepts_inner = lines[pos].split()[2] == "W1"
+            real_filter_accepts_audit = lines[pos].split()[4 if s.get("bump") else 3] == "W1"
             pos += 1
             got = []
             while pos < len(lines) and not lines[pos].startswith("#") and not lines[pos].startswith("T ") \
@@ -494,7 +565,8 @@ def check_program(p, src_root, workdir, name, stats=None):
             # filter ..."), so a wrong filter is C05's finding, not C10's
             enabled, want = expected_events(p, s, k, th,
                                             None if prop == "C05" else real_filter_accepts,
-                                            None if prop == "C05" else real_filter_accepts_inner)
+                                            None if prop == "C05" else real_filter_accepts_inner,
+                                            None if prop == "C05" else real_filter_accepts_audit)
             evaluations += 1
             if stats is not None:
                 ncall = sum(1 for i in s["items"] if i["kind"].startswith("call"))
@@ -514,6 +586,12 @@ def check_program(p, src_root, workdir, name, stats=None):
                     stats["classes"]["form:completes-during-stack-unwinding"] += 1
                 if s.get("bump"):
                     stats["classes"]["thresholds-change-while-stream-open"] += 1
+                if s.get("bindchain"):
+                    stats["classes"]["form:chain-result-bound-to-auto&&"] += 1
+                if any(i["kind"] in ("hex", "dec", "w6") for i in s["items"]):
+                    stats["classes"]["items:stream-manipulator"] += 1
+                if p.get("audit") is not None and enabled:
+                    stats["classes"]["sink:logs-from-inside-sink()"] += 1
                 if ncall:
                     stats["classes"]["has-callable"] += 1
                 if nontrivial:
@@ -599,7 +677,9 @@ def main():
                          "form:statement-inside-open-named-stream": 0,
                          "tag:storage-reused-while-stream-open": 0,
                          "form:completes-during-stack-unwinding": 0,
-                         "thresholds-change-while-stream-open": 0}}
+                         "thresholds-change-while-stream-open": 0,
+                         "form:chain-result-bound-to-auto&&": 0, "items:stream-manipulator": 0,
+                         "sink:logs-from-inside-sink()": 0}}
     wd = os.path.join(args.workdir, "logprog-%s-%d" % (args.prop, args.seed))
     failures = []
 
